@@ -123,8 +123,11 @@ class P:
             self.eat("BITS")
             self.eat(",")
             self.eat("LIMBS")
-            self.eat(">")
-            return "Self"
+            if self.at(">>"):                      # `Option<Uint<BITS, LIMBS>>`: split the `>>` token
+                self.t[self.i] = ("op", ">")
+            else:
+                self.eat(">")
+            return "uint"
         if v == "Ordering":
             return "ordering"
         if v == "Matrix":
@@ -585,7 +588,13 @@ class Tr:
                 return [], "(BB - 1)", "u128"
             if len(e[1]) >= 2 and e[1][-2] == "Ordering" and e[1][-1] in ("Less", "Equal", "Greater"):
                 return [], {"Less": "Lt", "Equal": "Eq", "Greater": "Gt"}[e[1][-1]], "ordering"
-            if e[1][0] == "Self" and len(e[1]) == 2 and f.selfty == "uint":
+            if len(e[1]) == 2 and self.alias.get(e[1][0], e[1][0]) == "Matrix" and e[1][1] in self.mconsts:
+                saved, f.selfty = f.selfty, "matrix"
+                try:
+                    return self.ex(f, self.mconsts[e[1][1]], env, "matrix")
+                finally:
+                    f.selfty = saved
+            if len(e[1]) == 2 and ((e[1][0] == "Self" and f.selfty == "uint") or (e[1][0] == "Uint" and "BITS" in env)):
                 c = e[1][1]
                 if c == "ZERO":
                     return [], "(uZERO BITS)", "uint"
@@ -940,6 +949,17 @@ class Tr:
         if name == "Wrapping":
             b, a, t = self.ex(f, args[0], env, "u64")
             return b, a, "W64"
+        if name == "Uint::from" and len(args) == 1 and "BITS" in env:
+            # From<u64> for Uint (panics when the value does not fit): NOT translated; Model/Conv.v
+            b, a, t = self.ex(f, args[0], env, "u64")
+            if t != "u64":
+                raise Unsupported("Uint::from of %s" % (t,))
+            f.impure = True
+            v = f.fresh()
+            return b + ["do %s <- Conv.from_of (Conv.try_from_u64 BITS %s) ;" % (v, paren(a))], v, "uint"
+        if "::" in name and self.alias.get(name.split("::")[0], name.split("::")[0]) == "Matrix" \
+                and ("M." + name.split("::", 1)[1]) in self.sigs:
+            return self.apply(f, "M." + name.split("::", 1)[1], args, env)
         if (name == "Matrix" or (name == "Self" and f.selfty == "matrix")) and len(args) == 5:
             # the tuple struct Matrix(u64, u64, u64, u64, bool)
             bs, atoms = [], []
@@ -1033,6 +1053,8 @@ class Tr:
         bs, atoms = [], (["BITS", "LIMBS"] if uintm else [])
         allargs = ([recv] if recv is not None else []) + list(args)
         ng = self.ngen.get(name, 0)
+        if ng == 2 and len(allargs) + 2 == len(ptys) and not uintm and "BITS" in env and "LIMBS" in env:
+            allargs = [("__atom", "BITS"), ("__atom", "LIMBS")] + allargs
         if ng == 1 and len(allargs) + 1 == len(ptys) and ptys[0] == "usize":
             # one const generic N, not written at the call: it is the length of the first `[u64; N]` argument
             for a, pt in zip(allargs, ptys[1:]):
@@ -1162,7 +1184,22 @@ class Tr:
             v = f.fresh()
             return b0 + bd + ["do %s <- (match iter_position (fun %s => %s) %s with None => Val %s | Some %s => %s Val %s end) ;"
                               % (v, x, ap, paren(a0), paren(ad), n, " ".join(bn), paren(an))], v, tn
+        if m == "unwrap" and not args and recv[0] == "mcall" and recv[2] == "try_into" and not recv[3] and want in ("u64", "u128"):
+            # TryFrom<Uint> for u64 / u128, unwrapped: NOT translated; Model/Conv.v
+            b0, a0, t0 = self.ex(f, recv[1], env)
+            if t0 != "uint" or "BITS" not in env:
+                raise Unsupported("try_into on %s" % (t0,))
+            f.impure = True
+            v = f.fresh()
+            if want == "u64":
+                conv = "Conv.to_of (Conv.try_to_int BITS {| Conv.pw := 64; Conv.psigned := false |} %s)" % paren(a0)
+            else:
+                conv = "Conv.to_of (Conv.try_to_128 BITS {| Conv.pw := 128; Conv.psigned := false |} %s)" % paren(a0)
+            return b0 + ["do %s <- %s ;" % (v, conv)], v, want
         br, ar, tr_ = self.ex(f, recv, env, want if m.startswith("wrapping_") else None)
+        if tr_ == "matrix" and ("M." + m) in self.sigs:
+            b2, a2, t2 = self.apply(f, "M." + m, args, env, recv=("__atom", paren(ar)))
+            return br + b2, a2, t2
         if m == "is_empty" and isinstance(tr_, tuple) and tr_[0] == "slice":
             return br, "(lenZ %s =? 0)" % paren(ar), "bool"
         if m == "last" and isinstance(tr_, tuple) and tr_[0] == "slice" and not args:
@@ -1281,6 +1318,20 @@ class Tr:
                     while t0[0] == "un":
                         t0 = t0[2]
                     lhs(t0)
+                if s[0] == "expr" and s[1][0] == "call" and s[1][1] == ("var", "swap") and len(s[1][2]) == 2:
+                    for t0 in s[1][2]:
+                        while t0[0] == "un":
+                            t0 = t0[2]
+                        lhs(t0)
+                if s[0] == "expr" and s[1][0] == "mcall" and ("M." + s[1][2]) in self.sigs:
+                    sg = self.sigs["M." + s[1][2]]
+                    off = self.ngen.get("M." + s[1][2], 0) + 1
+                    for k_ in sg[4]:
+                        if 0 <= k_ - off < len(s[1][3]):
+                            t0 = s[1][3][k_ - off]
+                            while t0[0] == "un":
+                                t0 = t0[2]
+                            lhs(t0)
                 for x in ([s[-1]] if s[0] in ("let", "assign", "expr") else []):
                     self.kernel_targets(x, lhs)
                     self.callee_targets(x, lhs)
@@ -1660,6 +1711,33 @@ class Tr:
                 st = f.fresh()
                 return "loop_fuel_ret (%s) %s (fun %s => let '%s := %s in %s)" % (
                     WHILE_FUEL[f.gname], tup(env), st, pat, st, bcode)
+            if e[0] == "while" and f.gname in WHILE_ROUNDS:
+                # as the fuelled while below, but the bound counts rounds: the condition is evaluated first,
+                # and only a round that has to run with no round left is OutOfFuel
+                c, body = e[1], e[2]
+                if body[2] is not None or self.has_return(body) or self.has_break(body):
+                    raise Unsupported("bounded while with a value, a return or a break")
+                vs = self.assigned(body)
+                for v in vs:
+                    if v not in env:
+                        raise Unsupported("assignment to undeclared " + v)
+                if not vs:
+                    raise Unsupported("while loop without effect")
+                tup = lambda en: ("(" + ", ".join(en[v][0] for v in vs) + ")") if len(vs) != 1 else en[vs[0]][0]
+                pat = ("(" + ", ".join(vs) + ")") if len(vs) != 1 else vs[0]
+                env2 = dict(env)
+                for v in vs:
+                    env2[v] = (v, env[v][1])
+                bc, ac, tc = self.ex(f, c, env2, "bool")
+                bcode = self.stmts(f, body[1], 0, env2, lambda en: "Val " + tup(en), retty)
+                f.impure = True
+                w, st = f.fresh(), f.fresh()
+                cur = tup(env)
+                env = dict(env)
+                for v in vs:
+                    env[v] = (v, env[v][1])
+                return "do %s <- while_rounds (%s) %s (fun %s => let '%s := %s in %s Val %s) (fun %s => let '%s := %s in %s) ;\n  let '%s := %s in\n  %s" % (
+                    w, WHILE_ROUNDS[f.gname], cur, st, pat, st, " ".join(bc), paren(ac), st, pat, st, bcode, pat, w, rest(env))
             if e[0] == "while" and f.gname in WHILE_FUEL:
                 # a `while c { body }` with no syntactic trip count: the loop runs on the tuple of the
                 # variables the body assigns with the round bound named in WHILE_FUEL (an expression of
@@ -1848,6 +1926,22 @@ class Tr:
                     return "%s do %s <- fill_from %s %s %s ;\n  %s" % (
                         " ".join(bl + bv), nm, nm, paren(al), paren(av), rest(env))
                 raise Unsupported("slice method ." + e[2])
+            if e[0] == "call" and e[1] == ("var", "swap") and len(e[2]) == 2:
+                # core::mem::swap(&mut a, &mut b) on two variables
+                ts = []
+                for t0 in e[2]:
+                    if not (t0[0] == "un" and t0[1] == "&"):
+                        raise Unsupported("swap of non-references")
+                    while t0[0] == "un":
+                        t0 = t0[2]
+                    if t0[0] != "var" or t0[1] not in env:
+                        raise Unsupported("swap of non-variables")
+                    ts.append(t0[1])
+                x_, y_ = ts
+                env2_ = dict(env)
+                env2_[x_] = (x_, env[x_][1])
+                env2_[y_] = (y_, env[y_][1])
+                return "let '(%s, %s) := (%s, %s) in\n  %s" % (x_, y_, env[y_][0], env[x_][0], rest(env2_))
             if e[0] in ("call", "mcall"):            # value discarded
                 b, a, t = self.ex(f, e, env)
                 return "%s\n  %s" % (" ".join(b), rest(env))
@@ -1952,6 +2046,14 @@ WHILE_FUEL = {
     "g_wrapping_pow": "Datatypes.S (Z.to_nat BITS)",
     "g_mat_from_u64": "70%nat",                   # r0 at least halves every round
     "g_mat_from_u64_prefix": "64%nat",            # a3 at least halves every round
+}
+
+# loops whose bound counts rounds (condition first): `while b != ZERO` of the Lehmer gcd loops, where every
+# round at least halves a*b
+WHILE_ROUNDS = {
+    "g_alg_gcd": "Z.to_nat (2 * BITS + 2)",
+    "g_alg_gcd_extended": "Z.to_nat (2 * BITS + 2)",
+    "g_alg_inv_mod": "Z.to_nat (2 * BITS + 2)",
 }
 
 TARGETS = [
@@ -2076,7 +2178,12 @@ TARGETS = [
     ("src/algorithms/gcd/matrix.rs", "impl Matrix", "from_u64", "M.from_u64", "g_mat_from_u64", "matrix"),
     ("src/algorithms/gcd/matrix.rs", "impl Matrix", "from_u64_prefix", "M.from_u64_prefix", "g_mat_from_u64_prefix", "matrix"),
     ("src/algorithms/gcd/matrix.rs", "impl Matrix", "from_u128_prefix", "M.from_u128_prefix", "g_mat_from_u128_prefix", "matrix"),
+    ("src/algorithms/gcd/matrix.rs", "impl Matrix", "apply", "M.apply", "g_mat_apply", "matrix"),
+    ("src/algorithms/gcd/matrix.rs", "impl Matrix", "from", "M.from", "g_mat_from", "matrix"),
     ("src/algorithms/gcd/matrix.rs", "impl Matrix", "apply_u128", "M.apply_u128", "g_mat_apply_u128", "matrix"),
+    ("src/algorithms/gcd/mod.rs", None, "gcd", "gcd", "g_alg_gcd", None),
+    ("src/algorithms/gcd/mod.rs", None, "gcd_extended", "gcd_extended", "g_alg_gcd_extended", None),
+    ("src/algorithms/gcd/mod.rs", None, "inv_mod", "inv_mod", "g_alg_inv_mod", None),
     ("src/modular.rs", UINT_IMPL, "reduce_mod", "U.reduce_mod", "g_reduce_mod", "uint"),
     ("src/modular.rs", UINT_IMPL, "add_mod", "U.add_mod", "g_add_mod", "uint"),
     ("src/modular.rs", UINT_IMPL, "mul_redc", "U.mul_redc", "g_u_mul_redc", "uint"),
@@ -2100,6 +2207,12 @@ def translate(repo):
             continue
         for m in re.finditer(r"(\w+)\s+as\s+(\w+)", " ".join(re.findall(r"pub use self::\{([^}]*)\}", txt))):
             tr.alias[m.group(2)] = m.group(1)
+    try:
+        gm = open(os.path.join(repo, "src/algorithms/gcd/mod.rs")).read()
+        for m in re.finditer(r"pub use self::\w+::(\w+) as (\w+);", gm):
+            tr.alias[m.group(2)] = m.group(1)
+    except OSError:
+        pass
     # associated consts of Uint that the translated methods mention (inlined at each use)
     try:
         lib = open(os.path.join(repo, "src/lib.rs")).read()
@@ -2180,7 +2293,7 @@ def translate(repo):
             status[gname] = "unsupported: %s" % ex
     head = ("(* GENERATED by tools_rs2v.py from the current text of /repo — do not edit.\n"
             "   One definition per translated Rust function; see Gen/Prim.v for the primitives. *)\n"
-            "From RV.Model Require Import Base Word.\nFrom RV.Model Require Limbs Add Div UDiv Redc.\nFrom RV.Gen Require Import Prim.\n\n")
+            "From RV.Model Require Import Base Word.\nFrom RV.Model Require Limbs Add Div UDiv Redc Conv.\nFrom RV.Gen Require Import Prim.\n\n")
     return head + "\n\n".join(tr.out) + "\n", status
 
 
